@@ -2149,8 +2149,21 @@ func (r *Raft) isSingleServerCluster() bool {
 }
 
 // pendingConfigurationChange returns true if the current configuration
-// has not been committed.
+// has not been committed or if the log contains a configuration that has
+// not been applied yet.
 func (r *Raft) pendingConfigurationChange() bool {
-	return r.committedConfiguration == nil ||
-		r.committedConfiguration.Index != r.configuration.Index
+	if r.committedConfiguration == nil ||
+		r.committedConfiguration.Index != r.configuration.Index {
+		return true
+	}
+
+	// The removal of a node and a change that was submitted to a previous leader do not
+	// take effect on this node before they are applied, but they are pending nonetheless.
+	for index := r.lastApplied + 1; index <= r.log.LastIndex(); index++ {
+		if entry, err := r.log.GetEntry(index); err == nil && entry.EntryType == ConfigurationEntry {
+			return true
+		}
+	}
+
+	return false
 }
